@@ -18,7 +18,7 @@ import (
 func init() {
 	register(&Prop{
 		ID: "C06extra",
-		Rule: "duplicate template names across files (same / different file names, the failing print of the first definition at an offset beyond the other source); range(start, limit, step) with every argument drawn from {ints, 0, negatives, 0.5, -0.5, 0.0, 1e300, strings, null, lists} as literals and as data; " +
+		Rule: "different templates in files of the same name (a render failing at an offset beyond the other file's length); duplicate template names across files (same / different file names, the failing print of the first definition at an offset beyond the other source); range(start, limit, step) with every argument drawn from {ints, 0, negatives, 0.5, -0.5, 0.0, 1e300, strings, null, lists} as literals and as data; " +
 			"ParseGlobals on well-formed and malformed lines (empty name, no value, no '=', unterminated string, trailing tokens, comments, blank lines, CRLF); oracle: OK or ERR, never PANIC / HANG; non-trivial = the case reaches the render (or the parse of a value)",
 		Direct: directC06extra,
 	})
@@ -73,6 +73,48 @@ func directC06extra(g *G, rep *Report) {
 			rep.DistinctNT++
 		}
 		_ = out
+	}
+	// 1b. DIFFERENT templates in files that carry the same name (AddTemplateString("", …) twice, or the same base
+	// name from two directories): a render failing late in the long file must still return an error — the
+	// position of the failing node must be looked up in the source of THAT file
+	for i := 0; i < n; i++ {
+		pad := strings.Repeat("filler line {sp}\n", 3+r.Intn(20))
+		fail := c19FailingPrints[r.Intn(8)]
+		long := "{namespace lng}\n/**\n * @param? n\n * @param? l\n * @param? s\n * @param? u\n */\n{template .t}\n{if false}{$n}{$l}{$s}{$u}{/if}\n" + pad + fail + "\n{/template}\n"
+		short := "{namespace sht}\n/** */\n{template .t}\nshort{call lng.t /}\n{/template}\n"
+		name := []string{"", "a.soy", "dir/a.soy"}[r.Intn(3)]
+		order := r.Bool()
+		entry := []string{"lng.t", "sht.t"}[r.Intn(2)]
+		var class string
+		c := guarded(10*time.Second, func() {
+			b := soy.NewBundle()
+			if order {
+				b.AddTemplateString(name, long).AddTemplateString(name, short)
+			} else {
+				b.AddTemplateString(name, short).AddTemplateString(name, long)
+			}
+			tofu, err := b.CompileToTofu()
+			if err != nil {
+				class = "COMPILE-ERR"
+				return
+			}
+			var sb strings.Builder
+			if err = tofu.Render(&sb, entry, data.Map{"n": data.Null{}, "l": data.List{data.Int(1)}, "s": data.String("s")}); err != nil {
+				class = "ERR"
+			} else {
+				class = "OK"
+			}
+		})
+		if c != "" {
+			class = c
+		}
+		rep.Evaluations++
+		rep.Distribution["same-file-name:"+class]++
+		if class == "PANIC" || class == "HANG" {
+			viol("same-file-name-"+class+":"+name+":"+entry, "rendering a bundle whose files carry the same name did not return normally: "+class, name+"|"+entry+"|"+long, class)
+		} else if class != "COMPILE-ERR" {
+			rep.DistinctNT++
+		}
 	}
 	// 2. range() with hostile arguments
 	argv := []string{"0", "1", "3", "-1", "-3", "0.5", "-0.5", "0.0", "2.5", "1e300", "'2'", "null", "[1]", "true", "$i", "$f", "$h", "$z", "$s", "$n", "$l"}
